@@ -107,16 +107,31 @@ func vsStored(t *testing.T, path string) vsVer {
 type vsCounting struct {
 	dbVerify
 	checks int
+	enter  func() // called when the verification is entered
 }
 
 func (c *vsCounting) CheckDatabase(db *dbutil.DB) error {
 	c.checks++
+	c.enter()
 	return c.dbVerify.CheckDatabase(db)
 }
 
 func (c *vsCounting) ResetCorruptDB(db *dbutil.DB) (*dbutil.DB, error) {
 	c.checks++
+	c.enter()
 	return c.dbVerify.ResetCorruptDB(db)
+}
+
+// one line of startup_trace.ndjson (specs/startup/TraceStartup.tla)
+type vsEvent struct {
+	Ev         string `json:"ev"`
+	Seq        int    `json:"seq"`
+	Step       int    `json:"step"`
+	App        vsVer  `json:"app"`
+	Checkpoint vsVer  `json:"checkpoint"`
+	Stored     vsVer  `json:"stored"`
+	Force      bool   `json:"force"`
+	Refused    bool   `json:"refused"`
 }
 
 func vsCopy(t *testing.T, src, dst string) {
@@ -174,6 +189,14 @@ func TestVerifStartup(t *testing.T) {
 	w := bufio.NewWriter(f)
 	defer func() { w.Flush(); f.Close() }()
 	enc := json.NewEncoder(w)
+	tf, err := os.Create(filepath.Join(out, "startup_trace.ndjson"))
+	if err != nil {
+		t.Fatal(err)
+	}
+	tw := bufio.NewWriter(tf)
+	defer func() { tw.Flush(); tf.Close() }()
+	tenc := json.NewEncoder(tw)
+	noVer := vsVer{None: true, Core: []int{}, Pre: []vsID{}, Build: []vsID{}}
 
 	pool := []string{"0.26.0", "0.27.0-1", "0.27.0-2", "0.27.0-10", "0.27.0-alpha", "0.27.0-alpha.1", "0.27.0-alpha.beta", "0.27.0-beta", "0.27.0-beta.2", "0.27.0-beta.11",
 		"0.27.0-rc1", "0.27.0-rc.1", "0.27.0-rc.1+b7", "0.27.0-rc.2", "0.27.0", "0.27.0+build.5", "0.27.1-rc1", "0.27.1-rc1+exp.sha.5114f85", "0.27.1", "0.28.0-rc.1", "1.0.0-0.3.7", "1.0.0-x.7.z.92", "1.0.0"}
@@ -205,6 +228,22 @@ func TestVerifStartup(t *testing.T) {
 		expectHead := 0
 		when := uint64(1000000)
 		nsteps := 4 + rng.Intn(5)
+		emitEv := func(e vsEvent) {
+			e.Seq = s
+			if e.App.Core == nil {
+				e.App = noVer
+			}
+			if e.Checkpoint.Core == nil {
+				e.Checkpoint = noVer
+			}
+			if e.Stored.Core == nil {
+				e.Stored = noVer
+			}
+			if err := tenc.Encode(e); err != nil {
+				t.Fatal(err)
+			}
+		}
+		emitEv(vsEvent{Ev: "reset", Checkpoint: vsParse(checkpoint)})
 		for step := 0; step < nsteps; step++ {
 			if step > 0 && rng.Intn(3) == 0 {
 				app = mine[rng.Intn(len(mine))]
@@ -218,23 +257,44 @@ func TestVerifStartup(t *testing.T) {
 			}
 			// images of the file right after each commit of this start
 			var images []string
+			gateSeen := false
+			passGate := func() {
+				if !gateSeen {
+					gateSeen = true
+					emitEv(vsEvent{Ev: "gate", Step: step, Refused: false})
+				}
+			}
 			dbutil.VerifCommitHook = func(name string) {
 				img := filepath.Join(dir, fmt.Sprintf("img-%d-%d", step, len(images)))
 				vsCopy(t, file, img)
 				images = append(images, img)
 				r.Commits = append(r.Commits, name)
+				if name == "SetDBVersion" {
+					passGate()
+					emitEv(vsEvent{Ev: "store", Step: step, Stored: vsStored(t, img)}) // what the file holds right after this commit
+				}
 			}
+			emitEv(vsEvent{Ev: "begin", Step: step, App: vsParse(app), Force: r.Force})
 			db, err := visor.OpenDB(file, false)
 			if err != nil {
 				t.Fatal(err)
 			}
 			appV, cpV := semver.MustParse(app), semver.MustParse(checkpoint)
 			dv := &vsCounting{dbVerify: dbVerify{blockchainPubkey: bpk, logger: logging.MustGetLogger("verif"), quit: make(chan struct{})}}
+			dv.enter = func() {
+				passGate()
+				emitEv(vsEvent{Ev: "verify", Step: step})
+			}
 			db2, err := checkAndUpdateDB(db, dbCheckConfig{ForceVerify: r.Force, ResetCorruptDB: r.Reset, AppVersion: &appV, DBCheckpointVersion: &cpV}, dv)
 			r.VerifyCalls = dv.checks
 			if err != nil {
 				r.Err = err.Error()
 				db.Close()
+				if !gateSeen {
+					emitEv(vsEvent{Ev: "gate", Step: step, Refused: true})
+				} else {
+					emitEv(vsEvent{Ev: "failed-after-gate", Step: step})
+				}
 			} else {
 				r.Opened = true
 				db = db2
@@ -285,6 +345,15 @@ func TestVerifStartup(t *testing.T) {
 			if r.Opened && len(images) > 0 && rng.Intn(2) == 0 {
 				r.CrashAfter = 1 + rng.Intn(len(images))
 				vsCopy(t, images[r.CrashAfter-1], file)
+			}
+			if r.Opened {
+				if !r.InitOK {
+					emitEv(vsEvent{Ev: "start-up-failed", Step: step})
+				} else if r.CrashAfter < len(images) {
+					emitEv(vsEvent{Ev: "crash", Step: step})
+				} else {
+					emitEv(vsEvent{Ev: "finish", Step: step})
+				}
 			}
 			if r.Opened {
 				// what this binary recorded (the version commit is the first one of a start)
